@@ -9,7 +9,7 @@ echo "" >> $OUT
 echo "| mutant | pinned suite (default + all features) | check | result | secs | families that fired |" >> $OUT
 echo "|---|---|---|---|---|---|" >> $OUT
 owner() { case "$1" in unfix1) echo C01;; unfix2) echo C05;; unfix3) echo C09;; unfix4) echo C09;; unfix5) echo C12;; unfix6|unfix7) echo C13;; unfix8) echo C15;; *) n=${1%%_*}; echo ${n^^};; esac; }
-for f in mutants/*.diff mutants/unfix/*.diff; do
+for f in /verif/mutants/*.diff /verif/mutants/unfix/*.diff; do
   name=$(basename $f .diff); prop=$(owner $name)
   [ -n "${ONLY:-}" ] && [[ "$name" != *$ONLY* ]] && continue
   if [ -n "$(git -C /repo status --porcelain)" ]; then echo "/repo dirty"; exit 3; fi
